@@ -60,7 +60,7 @@ def render(rec):
     form = {
         "list": f"[{E}]", "tuple": f"#({E})", "set": f"#{{{E}}}", "dict": f"{{{E}}}",
         "call": f"(f {E})", "method": f"(.m o {E})", "method-pre": f"(.m {E} o)", "dotcall": f"(o.m {E})",
-        "get": f"(get c {E})", "cut": f"(cut c {E})",
+        "get": f"(get c {E})", "cut": f"(cut c {E})", "dot-index": f"(. c [{E}])",
         "op-add": f"(+ {E})", "op-and": f"(and {E})", "op-le": f"(<= {E})",
         "setv-target": f"(setv [{E}] [1 2 3])",
         "bases": f"(defclass K [{E}])", "decorators": f"(defn [{E}] g [] 1)",
@@ -127,7 +127,7 @@ def main(run):
                 run.work, workers=8, label="collect")
     if r.violated:
         raise MachineryError(f"HyCollect: {r.violated} violated on the specification")
-    run.add_tlc(r, f"HyCollect: 27 contexts x element sequences of length <= {me} over plain / #* / #** / keyword")
+    run.add_tlc(r, f"HyCollect: 28 contexts x element sequences of length <= {me} over plain / #* / #** / keyword")
     rows = r.ex("PROG")
     run.log(f"TLC: {len(rows)} programs")
     rows.sort(key=lambda x: json.dumps(x, sort_keys=True))
@@ -169,7 +169,7 @@ def main(run):
         raise MachineryError(f"vacuous: {stats}")
     run.sample({"program": render(rows[len(rows) // 3])[0], "spec": rows[len(rows) // 3]})
     return run.finish("model_checking",
-                      f"27 contexts (collection displays, dict, call / method / dotted call, get, cut, + / and / <=, class "
+                      f"28 contexts (collection displays, dict, call / method / dotted call, get, cut, + / and / <=, class "
                       f"bases, decorators, except types, ten single-expression slots) x every sequence of <= {me} elements "
                       "over plain / #* / #** / keyword-and-value; checked: compilation outcome against the construct table, "
                       "every leaf (a uniquely numbered effect call) present in the compiled AST, and evaluated when the "
